@@ -345,6 +345,9 @@ class ManifestContext:
                 continue
             kids: Set[KeyMaterial] = adp.key_ids()
             keys = models.Key.get_kids(kids)
+            if not keys:
+                # the key of an encrypted file has been deleted
+                flask.abort(404, 'the encryption keys of this stream are not available')
             dc = DrmContext(stream, keys, self.options)
             adp.drm = dc.manifest_context
             adp.default_kid = list(keys.keys())[0]
